@@ -1,4 +1,4 @@
-import PsiProofs.Helper.C11_Select
+import PsiProofs.Helper.C11_Concat
 /-!
 # C11 — annotated arrays keep time base, channel labels and metadata aligned
 
@@ -231,5 +231,107 @@ theorem mask_labels {α} (l : List α) (m : List Bool) (h : m.length = l.length)
       have ih' := ih bs (by simpa using h) (pre ++ [x])
       simp only [List.append_assoc, List.singleton_append, List.length_append, List.length_singleton] at ih'
       cases b <;> simp [trueIdx, listTake, ih'] <;> simpa [listTake] using ih'
+
+/-- **Split + concat restores the array (time axis, 1-D).** For every cut `k ∈ ℤ` (negative or out of range
+alike), the two pieces `x[:k]`, `x[k:]` exist and `concat` of them is `x` itself: data, shape, `s0`, `fs`,
+label and metadata. -/
+theorem concat_split_time_1d (n : Nat) (data : List Nat) (s0 : Int) (fs : Rat) (lab : Label) (m : Md)
+    (hd : data.length = n) (k : Int) :
+    ∃ p1 p2, getitem ⟨[n], data, s0, fs, .one lab, .one m⟩ (.one (.slice ⟨none, some k, none⟩)) = .ok (.arr p1) ∧
+      getitem ⟨[n], data, s0, fs, .one lab, .one m⟩ (.one (.slice ⟨some k, none, none⟩)) = .ok (.arr p2) ∧
+      concat [p1, p2] .time = .ok ⟨[n], data, s0, fs, .one lab, .one m⟩ := by
+  subst hd
+  have hK : (clampPos k data.length).toNat ≤ data.length := by
+    have := clampPos_le k data.length; have := clampPos_nonneg k data.length; omega
+  refine ⟨_, _, getitem_slice_1d_explicit _ data s0 fs lab m rfl ⟨none, some k, none⟩ rfl,
+    getitem_slice_1d_explicit _ data s0 fs lab m rfl ⟨some k, none, none⟩ rfl, ?_⟩
+  simp only [startNat, stopNat]
+  rw [concat_two_1d _ _ _ _ _ _ _ _ _ _ _ _ (by simp; omega) (by simp; omega)]
+  have e1 : max 0 (clampPos k data.length).toNat = (clampPos k data.length).toNat := by omega
+  have e2 : max (clampPos k data.length).toNat data.length = data.length := by omega
+  simp [e1, e2]
+  omega
+
+/-- **concat refuses non-adjacent or mismatched pieces (1-D, time axis).** If the second piece does not start at
+the sample after the first one's last, or its rate, label or metadata differ, `concat` raises `ValueError`. -/
+theorem concat_rejects_1d (n1 n2 : Nat) (d1 d2 : List Nat) (s0 s0' : Int) (fs fs' : Rat) (lab lab' : Label) (m m' : Md)
+    (h1 : d1.length = n1) (h2 : d2.length = n2)
+    (hbad : s0' ≠ s0 + n1 ∨ fs' ≠ fs ∨ lab' ≠ lab ∨ m' ≠ m) :
+    concat [⟨[n1], d1, s0, fs, .one lab, .one m⟩, ⟨[n2], d2, s0', fs', .one lab', .one m'⟩] .time =
+      .error .valueError := by
+  rw [concat_two_1d _ _ _ _ _ _ _ _ _ _ _ _ h1 h2, if_pos]
+  rcases hbad with h | h | h | h <;> simp [h]
+
+/-- and adjacent, matching 1-D pieces are joined: data appended, annotations of the first piece. -/
+theorem concat_adjacent_1d (n1 n2 : Nat) (d1 d2 : List Nat) (s0 : Int) (fs : Rat) (lab : Label) (m : Md)
+    (h1 : d1.length = n1) (h2 : d2.length = n2) :
+    concat [⟨[n1], d1, s0, fs, .one lab, .one m⟩, ⟨[n2], d2, s0 + n1, fs, .one lab, .one m⟩] .time =
+      .ok ⟨[n1 + n2], d1 ++ d2, s0, fs, .one lab, .one m⟩ := by
+  rw [concat_two_1d _ _ _ _ _ _ _ _ _ _ _ _ h1 h2, if_neg]
+  simp
+
+/-- **Arithmetic, copies and dtype casts keep annotations**: `__array_finalize__` on a result of the same shape
+copies `s0`, `fs`, channel and metadata unchanged (for every well-formed array). -/
+theorem finalize_keeps (a : PD) (hwf : WF a) (data' : List Nat) :
+    (finalize a a.shape data').s0 = a.s0 ∧ (finalize a a.shape data').fs = a.fs ∧
+    (finalize a a.shape data').channel = a.channel ∧ (finalize a a.shape data').metadata = a.metadata ∧
+    (finalize a a.shape data').shape = a.shape := by
+  cases hwf with
+  | d1 n data s0 fs lab m hd => cases lab <;> simp [finalize]
+  | d2 c n data s0 fs l m hd hl => simp [finalize]
+  | d3 e c n data s0 fs l ms hd hl hm => simp [finalize]
+
+/-! ### The code as found (`getitemOrig`) violates the property: counterexamples -/
+
+/-- defect 17: `x[-2:]` on one sample moves `s0` from 0 to −1 (the time axis of the slice is shifted). -/
+theorem orig_slice_start_counterexample :
+    (getitemOrig ⟨[1], [0], 0, 1, .one none, .one 0⟩ (.one (.slice ⟨some (-2), none, none⟩))).toOption.map
+      (fun r => match r with | .arr b => (b.shape, b.s0) | .scalar _ => ([], 0)) = some ([1], -1) := by
+  decide +kernel
+
+/-- defect 18: a boolean list on the channel axis is used as integer positions: `[True, False, True]` on labels
+`a, b, c` yields three labels `b, a, b` for the two selected rows. -/
+theorem orig_channel_mask_counterexample :
+    (getitemOrig ⟨[3, 1], [0, 1, 2], 0, 1, .many [some "a", some "b", some "c"], .one 0⟩
+        (.one (.blist [true, false, true]))).toOption.map
+      (fun r => match r with | .arr b => (b.shape, b.channel) | .scalar _ => ([], .one none)) =
+      some ([2, 1], .many [some "b", some "a", some "b"]) := by
+  decide +kernel
+
+/-- defect 19: an integer ndarray without a zero entry is taken for an all-True mask: `x[np.array([1, 2])]` on three
+epochs keeps all three metadata entries for the two selected epochs. -/
+theorem orig_intarray_counterexample :
+    (getitemOrig ⟨[3, 1, 1], [0, 1, 2], 0, 1, .many [none], .many [10, 11, 12]⟩ (.one (.iarr [1, 2]))).toOption.map
+      (fun r => match r with | .arr b => (b.shape, b.metadata) | .scalar _ => ([], .one 0)) =
+      some ([2, 1, 1], .many [10, 11, 12]) := by
+  decide +kernel
+
+/-- the repaired model on the same three inputs. -/
+example : (getitem ⟨[1], [0], 0, 1, .one none, .one 0⟩ (.one (.slice ⟨some (-2), none, none⟩))).toOption.map
+    (fun r => match r with | .arr b => (b.shape, b.s0) | .scalar _ => ([], 0)) = some ([1], 0) := by decide +kernel
+example : (getitem ⟨[3, 1], [0, 1, 2], 0, 1, .many [some "a", some "b", some "c"], .one 0⟩
+    (.one (.blist [true, false, true]))).toOption.map
+    (fun r => match r with | .arr b => (b.shape, b.channel) | .scalar _ => ([], .one none)) =
+    some ([2, 1], .many [some "a", some "c"]) := by decide +kernel
+example : (getitem ⟨[3, 1, 1], [0, 1, 2], 0, 1, .many [none], .many [10, 11, 12]⟩ (.one (.iarr [1, 2]))).toOption.map
+    (fun r => match r with | .arr b => (b.shape, b.metadata) | .scalar _ => ([], .one 0)) =
+    some ([2, 1, 1], .many [11, 12]) := by decide +kernel
+
+/-! ### Non-vacuity: concrete inputs meeting the hypotheses -/
+
+example : WF ⟨[2, 3], [0, 1, 2, 3, 4, 5], -7, 1728, .many [some "a", some "b"], .one 0⟩ :=
+  WF.d2 2 3 _ _ _ _ _ rfl rfl
+example : WF ⟨[2, 1, 3], [0, 1, 2, 3, 4, 5], 5, 1728, .many [none], .many [0, 1]⟩ :=
+  WF.d3 2 1 3 _ _ _ _ _ rfl rfl rfl
+/-- `x[..., -13:]` on 10 samples: a unit-step slice with an out-of-range start. -/
+example : (⟨some (-13), none, none⟩ : PySlice).step = none ∨ (⟨some (-13), none, none⟩ : PySlice).step = some 1 := .inl rfl
+example : startNat ⟨some (-13), none, none⟩ 10 = 0 ∧ stopNat ⟨some (-13), none, none⟩ 10 = 10 := by decide
+example : (Item.blist [true, false, true]).selects ∧ itemSel (.blist [true, false, true]) 3 = .ok (.fancy [0, 2]) := by
+  exact ⟨trivial, rfl⟩
+example : (Item.slice ⟨some (-5), some 9, some 2⟩).selects := .inr ⟨2, by omega, rfl⟩
+example : itemSel (.iarr [1, 2]) 3 = .ok (.fancy [1, 2]) := rfl
+example : itemSel (.int (-1)) 3 = .ok (.idx 2) := rfl
+/-- a rejected pair: the second piece starts one sample late. -/
+example : (5 : Int) ≠ 0 + (4 : Nat) ∨ (1 : Rat) ≠ 1 ∨ (none : Label) ≠ none ∨ (0 : Md) ≠ 0 := .inl (by decide)
 
 end Psi.PData
